@@ -466,6 +466,16 @@ int simheap_id(const void *p)
     return pmap_get(p);
 }
 
+int simheap_id_live(int id)
+{
+    return id >= 0 && (unsigned)id < nblks && blks[id].live;
+}
+
+void *simheap_id_ptr(int id)
+{
+    return (id >= 0 && (unsigned)id < nblks) ? blks[id].user : NULL;
+}
+
 int simheap_find(const void *addr, int *live, size_t *off, size_t *size)
 {
     unsigned i;
